@@ -235,6 +235,8 @@ def units(tier):
             us.append(("unit_anysize_rate", (m,) + a))
     if tier == "quick":
         us += [("unit_compute", (m, (1,) * 6, "default")) for m in extract.MODELS]
+    if tier == "quick":
+        us += [("unit_rate", (m, (1,) * 6, "none", False, False)) for m in extract.MODELS]
     return us
 
 
